@@ -25,6 +25,10 @@ CLAIMED = {
          "Exploration by generated search: in-memory loader histories under many spellings, every clean absolute path of generated trees for the OS/http/embed loaders, and multi stacks with overlapping contents and AddLoaders mid-history.",
          "The host file system behaves as POSIX; the embed loader is exercised on one fixed embedded tree.",
          "DESIGN.md section 5/C19"),
+ "C15": ("property-based testing (rapid): generated name spellings x call paths x referrer depths x extension lists, observed through recording Loader/Cache wrappers; oracle = clean-absolute-path predicate + independently computed canonical name + metamorphic relation (two spellings of one template => identical request sequence) + outside-root marker files for the OS loader",
+         "Exploration by generated search over spellings (./ ../ // trailing slash, absolute/relative) on every call path that takes a template name.",
+         "The recording wrappers are transparent; canonical resolution is re-implemented independently (own normaliser).",
+         "DESIGN.md section 5/C15"),
 }
 PENDING = {}
 
